@@ -71,6 +71,8 @@ func acquireFromHolder(len int) (uintptr, *[]byte, error) {
 		return 0, nil, errSpaceOverflow
 	}
 
+	// 以原子累加的结果为准计算本次分配的起始地址, 避免并发时多个调用方拿到相同的起始地址
+	placeholder = newOffset - uintptr(len)
 	bytes := (*[]byte)(unsafe.Pointer(&reflect.SliceHeader{
 		Data: placeholder,
 		Len:  len,
